@@ -239,6 +239,9 @@ def case(ctx, i):
         with torch.no_grad():
             ug = np.moveaxis((t2.forward(t(xg)) - xg).double().numpy(), -1, 1)
         ctx.close("sequential_disp_equals_point_map", seq.disp().detach(), ug, TOL, key="sequential/disp", second=n2, **info)
+        with torch.no_grad():  # grid=True: "points are the undeformed grid points" holds for the first member only
+            ugf = np.moveaxis((seq(xg, grid=True) - xg).double().numpy(), -1, 1)
+        ctx.close("sequential_grid_flag_equals_point_map", ugf, ug, TOL, key="sequential/grid_flag", second=n2, **info)
         if seq.linear:
             M = L.full(seq.tensor().detach().double().numpy(), D)
             ya = np.einsum("gij,mj->gmi", M[:, :D, :D], x[0].double().numpy()) + M[:, None, :D, D]
@@ -256,6 +259,9 @@ def case(ctx, i):
         with torch.no_grad():
             ug = np.moveaxis(((t(xg) - xg) + (t2(xg) - xg)).double().numpy(), -1, 1)
         ctx.close("multilevel_disp_adds_displacements", ml.disp().detach(), ug, TOL, key=f"multilevel/disp/{'linear' if ml.linear else 'nonrigid'}", second=n2, **info)
+        with torch.no_grad():
+            ugf = np.moveaxis((ml(xg, grid=True) - xg).double().numpy(), -1, 1)
+        ctx.close("multilevel_grid_flag_adds_displacements", ugf, ug, TOL, key=f"multilevel/grid_flag/{'linear' if ml.linear else 'nonrigid'}", second=n2, **info)
     # ---------------- image warping
     for rel in ("equal", "same_domain", "other_domain"):
         with ctx.guard("ImageTransformer", key=f"exc/image/{rel}", relation=rel, **info):
